@@ -232,6 +232,7 @@ def check_euler_step(rec, netname, spacedesc, chem=None, label="euler step = law
         vac, _ = I.check()
         rec.vacuity_witness("euler-step " + desc, vac == "sat", vac)
         if per_path:
+            I.replay_ctx = (netname, spacedesc, chem, st)       # lets a per-path obligation replay ITS OWN counterexample on the real build
             per_path(I, system, [data[s * nc + i] for s in range(ns) for i in range(nc)],
                      [data[ns * nc + s * nc + i] for s in range(ns) for i in range(nc)], "euler " + desc)
             continue
@@ -301,3 +302,29 @@ def replay_euler_step(netname, spacedesc, chem, st, model, s, i, n_steps=1):
         ss, ii, exp, got = bad[0]
         return True, "species %d cell %d: law gives %.12g, real engine recorded %.12g (%s)" % (ss, ii, exp, got, catalogue.describe(netname, spacedesc)), case
     return False, "solver model did not reproduce on the real build (species %d cell %d)" % (s, i), case
+
+
+def replay_euler_conservation(I, m, vector, claim_dev=None):
+    """Real build, one Euler step from the solver's own counterexample (structure rebuilt with the model's numbers): does the
+    conserved total move? Returns True when it does."""
+    try:
+        ctx = getattr(I, "replay_ctx", None)
+        if ctx is None:
+            return False
+        netname, spacedesc, chem, st = ctx
+        if claim_dev is not None:
+            # prefer a counterexample whose deviation is far above rounding
+            r2, m2 = I.check(claim_dev)
+            if r2 == "sat":
+                m = m2
+        system, mapping = rebuild_with_model(netname, spacedesc, chem, st, m)
+        dt_tag = 0.00390625
+        dt = float(mapping.get(dt_tag, dt_tag))
+        data, ts = real_run(make_script(system, "euler", dt), "euler", 1)
+        ns, nc = len(system.network.species), system.space.size()
+        t0 = sum(vector[s] * data[s * nc + i] for s in range(ns) for i in range(nc))
+        t1 = sum(vector[s] * data[ns * nc + s * nc + i] for s in range(ns) for i in range(nc))
+        scale = sum(abs(vector[s] * data[s * nc + i]) for s in range(ns) for i in range(nc)) + 1.0
+        return abs(t1 - t0) > 1e-7 * scale
+    except Exception:
+        return False
